@@ -72,14 +72,17 @@ def gen_instance(rng, quick, family=None):
     elif kind == "dependent" and k >= 3:
         base = [qgen.unit(qgen.int_vector(rng, d, cplx)) for _ in range(k - 1)]
         c = rng.integers(1, 4, size=k - 1)
-        vecs = base + [qgen.unit(sum(ci * b for ci, b in zip(c, base)))]
+        comb = sum(ci * b for ci, b in zip(c, base))
+        if np.linalg.norm(comb) < 1e-9:   # the combination cancelled (b_2 = -b_1 with equal weights): take another one
+            comb = sum((ci + (1 if n == 0 else 0)) * b for n, (ci, b) in enumerate(zip(c, base)))
+        vecs = base + [qgen.unit(comb)]
     elif kind == "near":
         v0 = qgen.int_vector(rng, d, cplx, lim=8)
         vecs = [qgen.unit(v0)]
         for _ in range(k - 1):
             e = np.zeros(d, dtype=complex)
             e[int(rng.integers(d))] = 1
-            vecs.append(qgen.unit(v0 + e))
+            vecs.append(qgen.unit(v0 + e if np.any(v0 + e != 0) else v0 + 2 * e))
     else:
         kind = "random"
         vecs = [qgen.unit(qgen.int_vector(rng, d, cplx)) for _ in range(k)]
